@@ -121,6 +121,62 @@ for bits, nb, m in [(8, 1, mut("no-extra", "buffer.c", "janet_buffer_extra(buffe
          "janet_buffer_push_u%d, every size: appends the %d byte(s) of x in little-endian order, prefix unchanged, raises instead of exceeding INT32_MAX, every write inside the block" % (bits, nb) + FOREIGN,
          "h_buffer_push_u%d" % bits, "janet_buffer_push_u%d/janet_buffer_push_u%d_c" % (bits, bits), assumes=BA, mutants=[m], **B)
 
+# ------------------------------------------------------------------ array.c registered C functions
+CF = dict(src=["array.c"], link=["wrap.c", "util.c"], link_keep={"util.c": ["safe_memcpy"]}, harness=["seq_array_cfun.c"])
+CFA = [ALLOC, "memcpy/memmove models (seq_common.h): ranges must be valid (memcpy: disjoint) - counted obligations; pointwise effect on the ghost element",
+       "capi.c getters are stubs: slot 0 is a well-formed array, integer slots return the slot's low 32 bits, each asserts slot index < argc; janet_arity/janet_fixarity return only for an accepted argc",
+       "janet_gcalloc returns a fresh block"]
+unit("seq.cfun.array.push",
+     "array/push, every size and argument count: raises instead of exceeding INT32_MAX elements, else length grows by the number of xs, xs appended in order, prefix unchanged, memcpy inside the (regrown) block and argv, returns arr",
+     "h_cfun_array_push", "cfun_array_push/cfun_array_push_c", assumes=CFA, **CF,
+     mutants=[mut("copy-one-too-many", "array.c", "memcpy(array->data + array->count, argv + 1, (size_t)(argc - 1) * sizeof(Janet));", "memcpy(array->data + array->count, argv + 1, (size_t)argc * sizeof(Janet));", "memcpy model|assigns|pointer"),
+              mut("no-overflow-guard", "array.c", "if (INT32_MAX - argc + 1 <= array->count) {\n        janet_panic(\"array overflow\");\n    }\n    int32_t newcount = array->count - 1 + argc;", "int32_t newcount = array->count - 1 + argc;", "overflow")])
+unit("seq.cfun.array.insert", 
+     "array/insert, every size (count + argc <= INT32_MAX): index in [0,len] or negative from the end, else raises; result is old prefix ++ xs ++ old tail; no overflow; memmove/memcpy inside the block; returns arr",
+     "h_cfun_array_insert", "cfun_array_insert/cfun_array_insert_c", tier="thorough", timeout=600, cbmc=["--sat-solver", "cadical"],
+     assumes=CFA + ["domain restriction count + argc <= INT32_MAX: `array->count + argc - 2` is evaluated left to right and its intermediate sum overflows for a 16 GiB array although the result fits"], **CF,
+     mutants=[mut("index-check-dropped", "array.c", "if (at < 0 || at > array->count)\n        janet_panicf(\"insertion index", "if (at < 0)\n        janet_panicf(\"insertion index", "memmove model|postcondition|overflow|pointer|assigns")])
+unit("seq.cfun.array.remove.small-n",
+     "array/remove restricted to n + len <= INT32_MAX: index in [0,len] or negative from the end, n >= 0, else raises; removes min(n, len-at) elements at at: prefix unchanged, tail moved down, memmove inside the block; returns arr",
+     "h_cfun_array_remove", "cfun_array_remove/cfun_array_remove_c", tier="thorough", timeout=600, cbmc=["--sat-solver", "cadical"],
+     assumes=CFA + ["restricted domain n + len <= INT32_MAX; the unrestricted unit seq.cfun.array.remove fails (genuine defect)"],
+     **dict(CF, defines=["-DSEQ_REMOVE_NO_OVERFLOW"]),
+     mutants=[mut("no-clamp", "array.c", "    if (at + n > array->count) {\n        n = array->count - at;\n    }\n", "", "memmove model|postcondition|overflow|pointer|assigns")])
+unit("seq.cfun.array.remove",
+     "array/remove, ALL arguments: no signed overflow in at + n, memmove inside the block, removes min(n, len-at) elements",
+     "h_cfun_array_remove", "cfun_array_remove/cfun_array_remove_c", tier="thorough", timeout=600, cbmc=["--sat-solver", "cadical"], assumes=CFA, **CF,
+     disabled_reason="GENUINE DEFECT (DESIGN 8 item 1): `at + n` overflows int32 for large n, the clamp `if (at + n > array->count)` is skipped and memmove gets a negative (huge) size: (array/remove @[1 2 3] 1 2147483647) -> SIGSEGV. Obligations cfun_array_remove.overflow.2 (at + n), memmove model: source/destination range, conversion of the negative size fail. Fix: if (n > array->count - at) n = array->count - at;",
+     mutants=[mut("no-clamp", "array.c", "    if (at + n > array->count) {\n        n = array->count - at;\n    }\n", "", "memmove model|postcondition|overflow|pointer|assigns")])
+unit("seq.cfun.array.ensure.growth-pos",
+     "array/ensure restricted to growth >= 1: capacity at least the requested one, length and contents unchanged, invariant preserved; returns arr",
+     "h_cfun_array_ensure", "cfun_array_ensure/cfun_array_ensure_c",
+     assumes=CFA + ["restricted domain growth >= 1; the unrestricted unit seq.cfun.array.ensure fails (genuine defect)"],
+     **dict(CF, defines=["-DSEQ_ENSURE_GROWTH_POS"]),
+     mutants=[mut("arguments-swapped", "array.c", "janet_array_ensure(array, newcount, growth);\n    return argv[0];", "janet_array_ensure(array, growth, newcount);\n    return argv[0];", "postcondition|overflow")])
+unit("seq.cfun.array.ensure",
+     "array/ensure, ALL arguments: either raises or capacity at least the requested one with contents unchanged; no overflow / invalid allocation size",
+     "h_cfun_array_ensure", "cfun_array_ensure/cfun_array_ensure_c", tier="thorough", assumes=CFA, **CF,
+     disabled_reason="GENUINE DEFECT (DESIGN 8 item 8): growth is not checked, janet_array_ensure requires growth >= 1. (array/ensure @[1] 5 0) computes new capacity 0, realloc(data, 0) -> NULL -> the process exits with 'janet out of memory'; negative growth gives a negative capacity converted to a huge size_t. Obligations janet_array_ensure.overflow.* (conversion of negative capacity) and the postcondition capacity >= requested fail. Fix: reject growth < 1 in cfun_array_ensure.",
+     mutants=[mut("arguments-swapped", "array.c", "janet_array_ensure(array, newcount, growth);\n    return argv[0];", "janet_array_ensure(array, growth, newcount);\n    return argv[0];", "postcondition|overflow")])
+for nm, cl, mu in [
+    ("pop", "array/pop: arity 1; returns the last element and shortens by one, nil for the empty array; nothing else changes",
+     mut("post-decrement", "array.c", "return array->data[--array->count];", "return array->data[array->count--];", "pointer_dereference|postcondition")),
+    ("peek", "array/peek: arity 1; returns the last element, nil for the empty array; array unchanged",
+     mut("peek-past-end", "array.c", "return array->data[array->count - 1];", "return array->data[array->count];", "pointer_dereference|postcondition")),
+    ("clear", "array/clear: arity 1; length becomes 0, capacity and block kept; returns arr",
+     mut("clear-capacity", "array.c", "JanetArray *array = janet_getarray(argv, 0);\n    array->count = 0;\n    return argv[0];", "JanetArray *array = janet_getarray(argv, 0);\n    array->capacity = 0;\n    return argv[0];", "postcondition|assigns")),
+    ("trim", "array/trim: arity 1; capacity becomes the length (no block for the empty array), length and contents unchanged, old block released exactly once; returns arr",
+     mut("trim-keeps-capacity", "array.c", "            array->data = newData;\n            array->capacity = array->count;", "            array->data = newData;", "postcondition"))]:
+    unit("seq.cfun.array." + nm, cl, "h_cfun_array_" + nm, "cfun_array_%s/cfun_array_%s_c" % (nm, nm), assumes=CFA, mutants=[mu], **CF)
+unit("seq.cfun.array.fill",
+     "array/fill: arity 1..2; every element becomes value (default nil), length and capacity unchanged, every write inside the block; returns arr",
+     "h_cfun_array_fill", "cfun_array_fill/cfun_array_fill_c", assumes=CFA, **CF,
+     loops={"cfun_array_fill": [loop("i >= 0 && i <= array->count && ((g_idx >= 0 && g_idx < i) ==> array->data[g_idx].u64 == x.u64)",
+                                     "i, __CPROVER_object_upto(array->data, (unsigned long)array->count * 8)", "array->count - i",
+                                     "i,cfun_array_fill::1::1::i;array,cfun_array_fill::1::array;x,cfun_array_fill::1::x")]},
+     loop_counts={"cfun_array_fill": 1},
+     mutants=[mut("fill-off-by-one", "array.c", "for (int32_t i = 0; i < array->count; i++) {\n        array->data[i] = x;\n    }\n    return argv[0];", "for (int32_t i = 0; i <= array->count; i++) {\n        array->data[i] = x;\n    }\n    return argv[0];", "pointer_dereference|loop_invariant|assigns")])
+
 json.dump({"defaults": {"props": ["C04", "C17"], "mode": "dfcc", "timeout": 120, "object_bits": 7, "checks": CHECKS}, "units": units},
           open(os.path.join(V, "units", "C04_seq.json"), "w"), indent=1)
 print(len(units), "units")
